@@ -41,12 +41,12 @@ Proof. intros <-. induction a; simpl; [reflexivity | assumption]. Qed.
 Lemma aw_11 o t s : apply_wrap o t (apply_wrap o t s 1%N) 1%N = apply_wrap o t s 1%N.
 Proof.
   unfold apply_wrap. destruct (reissue o) as [r|]; [|reflexivity].
-  destruct (cmp_eval reissue_cmp (t - tval (renewed s)) r) eqn:E; cbn [renewed with_accessed mark]; rewrite E; reflexivity.
+  destruct (cmp_eval reissue_cmp (int_time t * tick - tval (renewed s)) (r * tick)) eqn:E; cbn [renewed with_accessed mark]; rewrite E; reflexivity.
 Qed.
 Lemma aw_12 o t s : apply_wrap o t (apply_wrap o t s 1%N) 2%N = apply_wrap o t s 2%N.
 Proof.
   unfold apply_wrap. destruct (reissue o) as [r|]; [|reflexivity].
-  destruct (cmp_eval reissue_cmp (t - tval (renewed s)) r); reflexivity.
+  destruct (cmp_eval reissue_cmp _ _); reflexivity.
 Qed.
 Lemma aw_22 o t s : apply_wrap o t (apply_wrap o t s 2%N) 2%N = apply_wrap o t s 2%N.
 Proof. reflexivity. Qed.
@@ -74,8 +74,9 @@ Qed.
 Lemma eff_flags o c t s :
   (accessed (eff o c t s), dirty (eff o c t s)) =
   match c with
-  | CAcc => (TI t, dirty s || match reissue o with Some ri => Z.gtb (t - tval (renewed s)) ri | None => false end)
-  | CMut => (TI t, true)
+  | CAcc => (TI (int_time t),
+             dirty s || match reissue o with Some ri => Z.gtb (int_time t * tick - tval (renewed s)) (ri * tick) | None => false end)
+  | CMut => (TI (int_time t), true)
   | CMark => (accessed s, true)
   end.
 Proof.
@@ -158,7 +159,7 @@ Proof.
 Qed.
 
 Definition expired (o : opts) (now renewed : Z) : bool :=
-  match timeout o with Some t => Z.gtb (now - renewed) t | None => false end.
+  match timeout o with Some t => Z.gtb (now - renewed) (t * tick) | None => false end.
 
 Lemma init_cookie_of O o s now : rt_b64 O -> rt_ser O -> mac_len O ->
   init O o (Some (cookie_of O o s)) now =
@@ -307,17 +308,17 @@ Qed.
 
 Lemma timeout_boundary O o s exc c t : rt_b64 O -> rt_ser O -> mac_len O ->
   finish O o s exc = FCookie c -> timeout o = Some t ->
-  (exists s0, init O o (Some c) (tval (accessed s) + t) = IOk s0 /\ st s0 = st s /\ isnew s0 = false)
-  /\ (exists s0, init O o (Some c) (tval (accessed s) + t + 1) = IOk s0 /\ st s0 = [] /\ isnew s0 = false
+  (exists s0, init O o (Some c) (tval (accessed s) + t * tick) = IOk s0 /\ st s0 = st s /\ isnew s0 = false)
+  /\ (exists s0, init O o (Some c) (tval (accessed s) + t * tick + 1) = IOk s0 /\ st s0 = [] /\ isnew s0 = false
                  /\ tval (created s0) = tval (created s)).
 Proof.
   intros Hb Hs Hm F T. apply finish_cookie_inv in F. destruct F as (-> & _).
   split; rewrite init_cookie_of by assumption; unfold expired; rewrite T.
-  - replace (tval (accessed s) + t - tval (accessed s))%Z with t by lia.
-    assert (G : (t >? t)%Z = false) by (rewrite Z.gtb_ltb; apply Z.ltb_irrefl).
+  - replace (tval (accessed s) + t * tick - tval (accessed s))%Z with (t * tick)%Z by lia.
+    assert (G : (t * tick >? t * tick)%Z = false) by (rewrite Z.gtb_ltb; apply Z.ltb_irrefl).
     rewrite G. eexists; split; [reflexivity|]. cbn. auto.
-  - replace (tval (accessed s) + t + 1 - tval (accessed s))%Z with (t + 1)%Z by lia.
-    assert (G : (t + 1 >? t)%Z = true) by (rewrite Z.gtb_ltb; apply Z.ltb_lt; lia).
+  - replace (tval (accessed s) + t * tick + 1 - tval (accessed s))%Z with (t * tick + 1)%Z by lia.
+    assert (G : (t * tick + 1 >? t * tick)%Z = true) by (rewrite Z.gtb_ltb; apply Z.ltb_lt; lia).
     rewrite G. eexists; split; [reflexivity|]. cbn. auto.
 Qed.
 
@@ -350,7 +351,7 @@ Qed.
 
 Lemma reissue_boundary o p t s r :
   op_cls p (st s) = CAcc -> reissue o = Some r ->
-  dirty (fst (step o p t s)) = dirty s || Z.gtb (t - tval (renewed s)) r.
+  dirty (fst (step o p t s)) = dirty s || Z.gtb (int_time t * tick - tval (renewed s)) (r * tick).
 Proof.
   intros C R. rewrite step_eff, C.
   pose proof (f_equal snd (eff_flags o CAcc t s)) as F. cbn [snd] in F. rewrite R in F. exact F.
@@ -360,7 +361,7 @@ Lemma created_preserved o l s : created (fst (run_ops o l s)) = created s.
 Proof. apply run_ops_spec. Qed.
 
 (* ------------------------------------------------------------------ non-vacuity *)
-Definition ex_p1 : jv := JList [JInt 100; JFlt 100; JObj [([97]%N, JInt 1)]].
+Definition ex_p1 : jv := JList [JInt 100; JFlt 402; JObj [([97]%N, JInt 1)]].
 Definition ex_blob : text := [7%N] ++ json_dumps ex_p1.
 Definition ex_O : oracles :=
   {| mac := fun _ _ => [7%N]; ser := json_dumps;
@@ -370,10 +371,11 @@ Definition ex_O : oracles :=
      ds := 1 |}.
 Definition ex_o : opts := {| key := [107]%N; timeout := Some 1200%Z; reissue := Some 5000%Z; soe := true |}.
 Definition ex_chain : list req :=
-  [ {| rsrc := SNone; rt := 100; rops := [(OSetItem [97]%N (JInt 1), 100%Z)]; rexc := false |};
-    {| rsrc := SLast; rt := 1300; rops := [(OItems, 1300%Z)]; rexc := false |};
-    {| rsrc := SText [65; 65]%N; rt := 1301; rops := [(OLen, 1301%Z)]; rexc := false |};
-    {| rsrc := SLast; rt := 1301; rops := []; rexc := false |} ].
+  (* clock in ticks of 0.25 s: the session is created at 100.5 s and written at 100.75 s (stamped 100) *)
+  [ {| rsrc := SNone; rt := 402; rops := [(OSetItem [97]%N (JInt 1), 403%Z)]; rexc := false |};
+    {| rsrc := SLast; rt := 5200; rops := [(OItems, 5200%Z)]; rexc := false |};
+    {| rsrc := SText [65; 65]%N; rt := 5201; rops := [(OLen, 5201%Z)]; rexc := false |};
+    {| rsrc := SLast; rt := 5201; rops := []; rexc := false |} ].
 
 (* the value stored in request 1 is there at the start of request 2 (exactly at the timeout),
    garbage gives a new empty session, and one second past the timeout the state is empty *)
